@@ -971,9 +971,26 @@ def rw_drop_tail_return(func, k):
             tail(last.orelse)
     if isinstance(func, FuncDef) and getattr(func, '_is_tail', True):
         tail(func.body)
+    for g in ast.walk(func):
+        if isinstance(g, FuncDef) and g is not func:
+            tail(g.body)
     if k >= len(sites):
         return False
     sites[k].pop()
+    return True
+
+
+def rw_drop_noop_pass(func, k):
+    """a `pass` next to other statements does nothing"""
+    sites = []
+    for owner, fld, blk in blocks_of(func):
+        if len(blk) > 1:
+            for st in blk:
+                if isinstance(st, ast.Pass):
+                    sites.append((blk, st))
+    if k >= len(sites):
+        return False
+    sites[k][0].remove(sites[k][1])
     return True
 
 
@@ -993,6 +1010,10 @@ def rw_add_tail_return(func, k):
     if isinstance(func, FuncDef) and getattr(func, '_is_tail', True) and func.body and isinstance(func.body[-1], ast.If):
         tail(func.body[-1].body)
         tail(func.body[-1].orelse)
+    for g in ast.walk(func):
+        if isinstance(g, FuncDef) and g is not func and g.body and isinstance(g.body[-1], ast.If):
+            tail(g.body[-1].body)
+            tail(g.body[-1].orelse)
     if k >= len(sites):
         return False
     sites[k].append(fix(ast.Return(value=None), sites[k][-1]))
@@ -1104,6 +1125,159 @@ def rw_drop_tail_continue(func, k):
     return True
 
 
+def rw_tail_pass_to_continue(func, k):
+    """a branch consisting of `pass` in tail position of a loop body   ->   `continue`"""
+    sites = []
+
+    def tail(stmts):
+        if not stmts:
+            return
+        last = stmts[-1]
+        if isinstance(last, ast.Pass) and len(stmts) == 1:
+            sites.append(stmts)
+        elif isinstance(last, ast.If):
+            tail(last.body)
+            tail(last.orelse)
+    for n in ast.walk(func):
+        if isinstance(n, (ast.For, ast.While)):
+            tail(n.body)
+    if k >= len(sites):
+        return False
+    sites[k][0] = fix(ast.Continue(), sites[k][0])
+    return True
+
+
+def rw_split_or_exit(func, k):
+    """if A or B: EXIT   ->   if A: EXIT ; if B: EXIT        (EXIT a single continue / break / return / raise)"""
+    sites = []
+    for owner, fld, blk in blocks_of(func):
+        for st in blk:
+            if isinstance(st, ast.If) and not st.orelse and len(st.body) == 1 and isinstance(st.body[0], (ast.Continue, ast.Break, ast.Return, ast.Raise)) \
+                    and isinstance(st.test, ast.BoolOp) and isinstance(st.test.op, ast.Or):
+                sites.append((blk, st))
+    if k >= len(sites):
+        return False
+    blk, st = sites[k]
+    out = [fix(ast.If(test=v, body=[copy.deepcopy(st.body[0])], orelse=[]), st) for v in st.test.values]
+    i = blk.index(st)
+    blk[i:i + 1] = out
+    return True
+
+
+def rw_merge_exit_ifs(func, k):
+    """if A: EXIT ; if B: EXIT   ->   if A or B: EXIT"""
+    sites = []
+    for owner, fld, blk in blocks_of(func):
+        for i in range(len(blk) - 1):
+            a, b = blk[i], blk[i + 1]
+            if all(isinstance(x, ast.If) and not x.orelse and len(x.body) == 1 and isinstance(x.body[0], (ast.Continue, ast.Break, ast.Return, ast.Raise)) for x in (a, b)) \
+                    and ast.dump(a.body[0]) == ast.dump(b.body[0]):
+                sites.append((blk, i))
+    if k >= len(sites):
+        return False
+    blk, i = sites[k]
+    a, b = blk[i], blk[i + 1]
+    vals = (a.test.values if isinstance(a.test, ast.BoolOp) and isinstance(a.test.op, ast.Or) else [a.test]) + (b.test.values if isinstance(b.test, ast.BoolOp) and isinstance(b.test.op, ast.Or) else [b.test])
+    blk[i:i + 2] = [fix(ast.If(test=ast.BoolOp(op=ast.Or(), values=vals), body=a.body, orelse=[]), a)]
+    return True
+
+
+def rw_extend_to_loop(func, k):
+    """X.extend(S)   ->   for v in S: X.append(v)"""
+    sites = []
+    for owner, fld, blk in blocks_of(func):
+        for st in blk:
+            if isinstance(st, ast.Expr) and isinstance(st.value, ast.Call) and isinstance(st.value.func, ast.Attribute) and st.value.func.attr == 'extend' and len(st.value.args) == 1 \
+                    and not st.value.keywords and isinstance(st.value.args[0], (ast.Name, ast.Attribute, ast.Subscript)) and ast.unparse(st.value.args[0]) != ast.unparse(st.value.func.value) \
+                    and _is_pure(st.value.func.value):
+                sites.append((blk, st))
+    if k >= len(sites):
+        return False
+    blk, st = sites[k]
+    v = '_ext_v%d' % (st.lineno,)
+    app = ast.Expr(value=ast.Call(func=ast.Attribute(value=st.value.func.value, attr='append', ctx=ast.Load()), args=[ast.Name(id=v, ctx=ast.Load())], keywords=[]))
+    loop = ast.For(target=ast.Name(id=v, ctx=ast.Store()), iter=st.value.args[0], body=[app], orelse=[])
+    blk[blk.index(st)] = fix(loop, st)
+    return True
+
+
+def rw_comp_over_collected(func, k):
+    """L = [] ; for x in S: ... L.append(x) ...  ;  A = [E(y) for y in L]
+         ->    A = [] ; L = [] ; for x in S: ... A.append(E(x)) ; L.append(x) ...
+    (L holds exactly the x of the iterations that reach the append, in order; E is pure and the loop only appends)"""
+    sites = []
+    for owner, fld, blk in blocks_of(func):
+        for i, st in enumerate(blk):
+            if not (isinstance(st, ast.Assign) and len(st.targets) == 1 and isinstance(st.targets[0], ast.Name) and isinstance(st.value, ast.ListComp) and len(st.value.generators) == 1):
+                continue
+            g = st.value.generators[0]
+            if g.ifs or not isinstance(g.iter, ast.Name) or not isinstance(g.target, ast.Name) or not _is_pure(st.value.elt):
+                continue
+            L = g.iter.id
+            # the collecting loop: the closest preceding For, only separated by other comprehensions over L
+            j = i - 1
+            while j >= 0 and isinstance(blk[j], ast.Assign) and isinstance(blk[j].value, ast.ListComp):
+                j -= 1
+            if j < 1 or not isinstance(blk[j], ast.For) or blk[j].orelse:
+                continue
+            loop = blk[j]
+            apps = [c for c in ast.walk(loop) if isinstance(c, ast.Call) and isinstance(c.func, ast.Attribute) and c.func.attr == 'append' and isinstance(c.func.value, ast.Name) and c.func.value.id == L]
+            if len(apps) != 1 or not isinstance(apps[0].args[0], ast.Name):
+                continue
+            # the loop body only tests and appends to plain names (nothing E could read is changed)
+            okb = True
+            for n in ast.walk(loop):
+                if isinstance(n, ast.stmt) and n is not loop and not isinstance(n, (ast.If, ast.Expr, ast.Continue, ast.Pass)):
+                    okb = False
+                if isinstance(n, ast.Expr) and not (isinstance(n.value, ast.Call) and isinstance(n.value.func, ast.Attribute) and n.value.func.attr == 'append' and isinstance(n.value.func.value, ast.Name)):
+                    okb = False
+            if not okb or any(isinstance(n, (ast.Break, ast.Return)) for n in ast.walk(loop)):
+                continue
+            init = [q for q in range(j) if isinstance(blk[q], ast.Assign) and len(blk[q].targets) == 1 and isinstance(blk[q].targets[0], ast.Name) and blk[q].targets[0].id == L
+                    and isinstance(blk[q].value, ast.List) and not blk[q].value.elts]
+            if not init:
+                continue
+            q = init[-1]
+            # L is not touched between its initialisation and the loop, A and the roots of E are not used there either
+            A = st.targets[0].id
+            mid = blk[q + 1:j]
+            if any(isinstance(n, ast.Name) and n.id in (L, A) for m_ in mid for n in ast.walk(m_)):
+                continue
+            if any(isinstance(n, ast.Name) and n.id == A for n in ast.walk(loop)) or any(isinstance(n, ast.Name) and n.id == A for m_ in blk[j + 1:i] for n in ast.walk(m_)):
+                continue
+            appended = {c.func.value.id for c in ast.walk(loop) if isinstance(c, ast.Call) and isinstance(c.func, ast.Attribute) and c.func.attr == 'append' and isinstance(c.func.value, ast.Name)}
+            if _roots(st.value.elt) & (appended | {loop.target.id if isinstance(loop.target, ast.Name) else ''}) - {g.target.id}:
+                continue
+            for pos in ('before', 'after'):
+                for ipos in ('before', 'after'):
+                    sites.append((blk, i, j, q, apps[0], pos, ipos))
+    if k >= len(sites):
+        return False
+    blk, i, j, q, app, pos, ipos = sites[k]
+    st, loop = blk[i], blk[j]
+    g = st.value.generators[0]
+    x = app.args[0].id
+    elt = copy.deepcopy(st.value.elt)
+    for n in list(ast.walk(elt)):
+        if isinstance(n, ast.Name) and n.id == g.target.id:
+            n.id = x
+    par = parents_of(loop)
+    holder = par.get(app)          # the Expr statement
+    hb = None
+    for owner, fld, b2 in blocks_of(loop):
+        if any(h is holder for h in b2):
+            hb = b2
+    if hb is None:
+        return True
+    new_app = fix(ast.Expr(value=ast.Call(func=ast.Attribute(value=ast.Name(id=st.targets[0].id, ctx=ast.Load()), attr='append', ctx=ast.Load()), args=[elt], keywords=[])), holder)
+    at = next(n_ for n_, h in enumerate(hb) if h is holder)
+    hb.insert(at if pos == 'before' else at + 1, new_app)
+    init = fix(ast.Assign(targets=[ast.Name(id=st.targets[0].id, ctx=ast.Store())], value=ast.List(elts=[], ctx=ast.Load())), blk[q])
+    del blk[i]
+    blk.insert(q if ipos == 'before' else q + 1, init)
+    return True
+
+
 def rw_items_loop(func, k):
     """for key, val in D.items(): ... val ...    ->    for key in D: ... D[key] ..."""
     sites = [n for n in ast.walk(func) if isinstance(n, (ast.For, ast.comprehension)) and isinstance(n.target, ast.Tuple) and len(n.target.elts) == 2
@@ -1122,6 +1296,78 @@ def rw_items_loop(func, k):
             replace_node(owner, n, fix(ast.Subscript(value=copy.deepcopy(d), slice=ast.Name(id=key, ctx=ast.Load()), ctx=ast.Load()), n))
     g.target = fix(ast.Name(id=key, ctx=ast.Store()), g.target)
     g.iter = fix(copy.deepcopy(d), g.iter)
+    return True
+
+
+def _free_loop_name(func, v, inside, par, stop=None):
+    """every occurrence of the name v outside the node set `inside` is bound by an enclosing loop / comprehension of its own
+    (so a new loop variable v cannot be observed there)"""
+    site = next((n for n in ast.walk(func) if id(n) in inside), None)
+    q = par.get(site) if site is not None else None
+    while q is not None and q is not func:
+        # the converted statement itself sits in a loop over v: the new binding would clobber that loop's variable
+        if isinstance(q, ast.For) and q is not stop and any(isinstance(y, ast.Name) and y.id == v for y in ast.walk(q.target)):
+            return False
+        q = par.get(q)
+    own = set()      # nested functions / lambdas with a parameter v: a scope of their own
+    for n in ast.walk(func):
+        if isinstance(n, FuncDef + (ast.Lambda,)) and n is not func:
+            a_ = n.args
+            if any(x.arg == v for x in a_.posonlyargs + a_.args + a_.kwonlyargs + [y for y in (a_.vararg, a_.kwarg) if y is not None]):
+                own.update(id(y) for y in ast.walk(n))
+    if isinstance(func, FuncDef):
+        a_ = func.args
+        if any(x.arg == v for x in a_.posonlyargs + a_.args + a_.kwonlyargs + [y for y in (a_.vararg, a_.kwarg) if y is not None]):
+            return False
+    for n in ast.walk(func):
+        if id(n) in own:
+            continue
+        if isinstance(n, ast.Name) and n.id == v and id(n) not in inside:
+            q, bound = par.get(n), False
+            if isinstance(n.ctx, ast.Store) and isinstance(q, (ast.For, ast.Tuple)):
+                # the target of another loop
+                qq = q
+                while isinstance(qq, ast.Tuple):
+                    qq = par.get(qq)
+                if isinstance(qq, ast.For) and any(n is y for y in ast.walk(qq.target)):
+                    continue
+            while q is not None and q is not func:
+                if isinstance(q, ast.For) and q is not stop and any(isinstance(y, ast.Name) and y.id == v for y in ast.walk(q.target)) and not any(n is y for y in ast.walk(q.iter)):
+                    bound = True
+                if isinstance(q, (ast.ListComp, ast.GeneratorExp, ast.SetComp, ast.DictComp)) and any(isinstance(y, ast.Name) and y.id == v for c in q.generators for y in ast.walk(c.target)):
+                    bound = True
+                if stop is not None and q is stop:
+                    bound = False
+                    break
+                q = par.get(q)
+            if not bound:
+                return False
+    return True
+
+
+def rw_genexp_loop(func, k):
+    """for t in (E for v in S): B     ->     for v in S: t = E ; B        (generators are lazy: same interleaving; v must not be
+    read anywhere it is not rebound first)"""
+    sites = [n for n in ast.walk(func) if isinstance(n, ast.For) and isinstance(n.iter, (ast.GeneratorExp, ast.ListComp)) and len(n.iter.generators) == 1
+             and not n.iter.generators[0].ifs and not n.iter.generators[0].is_async and isinstance(n.iter.generators[0].target, ast.Name)]
+    if k >= len(sites):
+        return False
+    g = sites[k]
+    gen = g.iter.generators[0]
+    v = gen.target.id
+    if isinstance(g.iter, ast.ListComp) and not _is_pure(g.iter.elt):
+        return True       # a list is built before the first iteration
+    par = parents_of(func)
+    inside = {id(n) for n in ast.walk(g.iter)}
+    if not _free_loop_name(func, v, inside, par, g):
+        return True
+    asg = fix(ast.Assign(targets=[copy.deepcopy(g.target)], value=g.iter.elt), g)
+    for y in ast.walk(asg.targets[0]):
+        if hasattr(y, 'ctx'):
+            y.ctx = ast.Store()
+    g.target = fix(ast.Name(id=v, ctx=ast.Store()), g)
+    g.iter = gen.iter
+    g.body.insert(0, asg)
     return True
 
 
@@ -1256,7 +1502,16 @@ def rw_sink_common_tail(func, k):
     sites = []
     for owner, fld, blk in blocks_of(func):
         for i, s in enumerate(blk):
-            if isinstance(s, ast.If) and s.orelse and i + 1 < len(blk) and not isinstance(blk[i + 1], (ast.If, ast.For, ast.While, ast.Try, ast.With) + FuncDef):
+            if isinstance(s, ast.If) and s.orelse and i + 1 < len(blk) and not isinstance(blk[i + 1], FuncDef):
+                if isinstance(blk[i + 1], (ast.If, ast.For, ast.While, ast.Try, ast.With)):
+                    # a compound statement is only moved (never duplicated): exactly one branch of the chain falls through
+                    def _open(n):
+                        c_ = 0 if always_exits(n.body) else 1
+                        if len(n.orelse) == 1 and isinstance(n.orelse[0], ast.If):
+                            return c_ + _open(n.orelse[0])
+                        return c_ + (0 if always_exits(n.orelse) else 1)
+                    if _open(s) != 1:
+                        continue
                 sites.append((blk, i))
     if k >= len(sites):
         return False
@@ -1274,6 +1529,77 @@ def rw_sink_common_tail(func, k):
         elif not n.orelse:
             n.orelse = [copy.deepcopy(tail)]
     put(s)
+    return True
+
+
+def _simple_return(st):
+    return isinstance(st, ast.Return) and (st.value is None or isinstance(st.value, (ast.Name, ast.Constant)))
+
+
+def _try_sites(func):
+    sites = []
+    for owner, fld, blk in blocks_of(func):
+        for i, s in enumerate(blk):
+            if isinstance(s, ast.Try) and not s.finalbody and not s.orelse and s.handlers:
+                sites.append((blk, i))
+    return sites
+
+
+def rw_try_tail_out(func, k):
+    """try: A ; return n  except: H ; return n      ->   try: A  except: H ;  return n       (n a plain name or constant:
+    its evaluation cannot raise, so leaving the protected region does not change which exceptions are caught)"""
+    sites = _try_sites(func)
+    if k >= len(sites):
+        return False
+    blk, i = sites[k]
+    s = blk[i]
+
+    def leaves(b, owner, fld):
+        if b and isinstance(b[-1], ast.If) and b[-1].orelse:
+            return leaves(b[-1].body, b[-1], 'body') + leaves(b[-1].orelse, b[-1], 'orelse')
+        return [(b, owner, fld)]
+    tails = leaves(s.body, s, 'body')
+    for h in s.handlers:
+        tails += leaves(h.body, h, 'body')
+    rets = [b[-1] for b, o, f in tails if b and _simple_return(b[-1])]
+    if not rets:
+        return True
+    nxt = blk[i + 1] if i + 1 < len(blk) else None
+    if nxt is not None:
+        if not _simple_return(nxt):
+            return True
+        want = ast.dump(nxt)
+    else:
+        if not all(always_exits(b) for b, o, f in tails):
+            return True      # a path falls through to whatever follows the enclosing block
+        want = Counter(ast.dump(r) for r in rets).most_common(1)[0][0]
+        blk.insert(i + 1, copy.deepcopy(next(r for r in rets if ast.dump(r) == want)))
+    for b, o, f in tails:
+        if b and _simple_return(b[-1]) and ast.dump(b[-1]) == want:
+            b.pop()
+            if not b and f == 'body':
+                b.append(ast.Pass(lineno=s.lineno, col_offset=0, end_lineno=s.lineno, end_col_offset=0))
+    return True
+
+
+def rw_try_tail_in(func, k):
+    """try: A  except: H ;  return n    ->   try: A ; return n  except: H ; return n      (inverse of try_tail_out)"""
+    sites = _try_sites(func)
+    if k >= len(sites):
+        return False
+    blk, i = sites[k]
+    s = blk[i]
+    nxt = blk[i + 1] if i + 1 < len(blk) else None
+    if nxt is None or not _simple_return(nxt):
+        return True
+    if isinstance(nxt.value, ast.Name) and any(isinstance(n, ast.Name) and n.id == nxt.value.id and isinstance(n.ctx, ast.Store) for h in s.handlers for n in ast.walk(h)) is None:
+        return True
+    for b in [s.body] + [h.body for h in s.handlers]:
+        if always_exits(b):
+            continue
+        if len(b) == 1 and isinstance(b[0], ast.Pass):
+            b.pop()
+        b.append(copy.deepcopy(nxt))
     return True
 
 
@@ -1314,7 +1640,7 @@ def rw_extract_temp(func, k):
                 roots = [st.value] if isinstance(st, (ast.Assign, ast.AugAssign, ast.Return, ast.Expr)) and getattr(st, 'value', None) is not None else []
             for r in roots:
                 for e in ast.walk(r):
-                    if not isinstance(e, (ast.Call, ast.BinOp, ast.Attribute, ast.Subscript, ast.ListComp, ast.Compare, ast.IfExp)) or not isinstance(getattr(e, 'ctx', ast.Load()), ast.Load):
+                    if not isinstance(e, (ast.Call, ast.BinOp, ast.Attribute, ast.Subscript, ast.ListComp, ast.Compare, ast.IfExp, ast.List, ast.Tuple, ast.Dict, ast.Set, ast.DictComp, ast.SetComp, ast.BoolOp, ast.UnaryOp, ast.JoinedStr)) or not isinstance(getattr(e, 'ctx', ast.Load()), ast.Load):
                         continue
                     if isinstance(st, ast.Assign) and e is st.value and len(st.targets) == 1 and isinstance(st.targets[0], ast.Name):
                         continue
@@ -1668,6 +1994,114 @@ def rw_get_none(func, k):
     return True
 
 
+def _membership_guarded(func, node, d_txt, k_txt, par):
+    """node lies in the body of an `if K in D` (possibly one conjunct of an and) and D loses no key before it"""
+    q, child = par.get(node), node
+    while q is not None:
+        if isinstance(q, ast.If) and any(child is x for x in q.body):
+            conj = q.test.values if isinstance(q.test, ast.BoolOp) and isinstance(q.test.op, ast.And) else [q.test]
+            for t in conj:
+                if isinstance(t, ast.Compare) and len(t.ops) == 1 and isinstance(t.ops[0], ast.In) and ast.unparse(t.left) == k_txt and ast.unparse(t.comparators[0]) == d_txt:
+                    for x in ast.walk(q):
+                        if isinstance(x, ast.Call) and isinstance(x.func, ast.Attribute) and x.func.attr in ('pop', 'clear', 'popitem') and ast.unparse(x.func.value) == d_txt:
+                            return False
+                        if isinstance(x, ast.Delete) and any(d_txt in ast.unparse(t_) for t_ in x.targets):
+                            return False
+                        if isinstance(x, ast.Name) and isinstance(x.ctx, ast.Store) and x.id in (d_txt, k_txt):
+                            return False
+                    return True
+        if isinstance(q, FuncDef) and q is not func and False:
+            break
+        child, q = q, par.get(q)
+    return False
+
+
+def rw_guarded_subscript_get(func, k):
+    """under `if K in D:`      D[K]  <->  D.get(K)"""
+    par = parents_of(func)
+    sites = []
+    for n in ast.walk(func):
+        if isinstance(n, ast.Subscript) and isinstance(n.ctx, ast.Load) and not isinstance(n.slice, ast.Slice) and isinstance(n.value, ast.Name):
+            if _membership_guarded(func, n, ast.unparse(n.value), ast.unparse(n.slice), par):
+                sites.append(('get', n))
+        elif isinstance(n, ast.Call) and isinstance(n.func, ast.Attribute) and n.func.attr == 'get' and len(n.args) == 1 and not n.keywords and isinstance(n.func.value, ast.Name):
+            if _membership_guarded(func, n, ast.unparse(n.func.value), ast.unparse(n.args[0]), par):
+                sites.append(('sub', n))
+    if k >= len(sites):
+        return False
+    kind, n = sites[k]
+    if kind == 'get':
+        new = ast.Call(func=ast.Attribute(value=n.value, attr='get', ctx=ast.Load()), args=[n.slice], keywords=[])
+    else:
+        new = ast.Subscript(value=n.func.value, slice=n.args[0], ctx=ast.Load())
+    replace_node(func, n, fix(new, n))
+    return True
+
+
+def rw_update_to_loop(func, k):
+    """D.update((K, V) for x in S)    ->    for x in S: D[K] = V      (D a plain name / attribute / getattr lookup)"""
+    sites = []
+    for owner, fld, blk in blocks_of(func):
+        for st in blk:
+            if isinstance(st, ast.Expr) and isinstance(st.value, ast.Call) and isinstance(st.value.func, ast.Attribute) and st.value.func.attr == 'update' and len(st.value.args) == 1 \
+                    and not st.value.keywords and isinstance(st.value.args[0], (ast.GeneratorExp, ast.ListComp)) and len(st.value.args[0].generators) == 1 \
+                    and isinstance(st.value.args[0].elt, ast.Tuple) and len(st.value.args[0].elt.elts) == 2 and not st.value.args[0].generators[0].ifs:
+                sites.append((blk, st))
+    if k >= len(sites):
+        return False
+    blk, st = sites[k]
+    d = st.value.func.value
+    comp = st.value.args[0]
+    g = comp.generators[0]
+    if not _is_pure(d) or not _is_pure(comp.elt):
+        return True
+    bound = {y.id for y in ast.walk(g.target) if isinstance(y, ast.Name)}
+    par = parents_of(func)
+    inside = {id(z) for z in ast.walk(comp)}
+    if not all(_free_loop_name(func, v, inside, par) for v in bound):
+        return True      # the loop variable would leak into a scope that already uses the name
+    asg = ast.Assign(targets=[ast.Subscript(value=copy.deepcopy(d), slice=comp.elt.elts[0], ctx=ast.Store())], value=comp.elt.elts[1])
+    loop = ast.For(target=g.target, iter=g.iter, body=[asg], orelse=[])
+    for y in ast.walk(loop.target):
+        if hasattr(y, 'ctx'):
+            y.ctx = ast.Store()
+    blk[blk.index(st)] = fix(loop, st)
+    return True
+
+
+def rw_unroll_const_loop(func, k):
+    """for x in (c1, ..., cn): B      ->     B[x := c1] ; ... ; B[x := cn]       (constants, straight-line body, x dead afterwards)"""
+    sites = []
+    for owner, fld, blk in blocks_of(func):
+        for st in blk:
+            if isinstance(st, ast.For) and not st.orelse and isinstance(st.target, ast.Name) and isinstance(st.iter, (ast.Tuple, ast.List)) and 1 <= len(st.iter.elts) <= 8 \
+                    and all(isinstance(e, ast.Constant) for e in st.iter.elts) and len(st.body) <= 4:
+                sites.append((blk, st))
+    if k >= len(sites):
+        return False
+    blk, st = sites[k]
+    v = st.target.id
+    if any(isinstance(n, (ast.Break, ast.Continue, ast.Return) + FuncDef + (ast.Lambda,)) for b in st.body for n in ast.walk(b)):
+        return True
+    if any(isinstance(n, ast.Name) and n.id == v and isinstance(n.ctx, (ast.Store, ast.Del)) for b in st.body for n in ast.walk(b)):
+        return True
+    inside = {id(n) for n in ast.walk(st)}
+    par = parents_of(func)
+    if not _free_loop_name(func, v, inside, par):
+        return True
+    out = []
+    for c in st.iter.elts:
+        for b in st.body:
+            nb = copy.deepcopy(b)
+            for n in list(ast.walk(nb)):
+                if isinstance(n, ast.Name) and n.id == v:
+                    replace_node(nb, n, fix(ast.Constant(value=c.value), n))
+            out.append(nb)
+    i = blk.index(st)
+    blk[i:i + 1] = out
+    return True
+
+
 def rw_flip_compare(func, k):
     """a < b  <->  b > a     (and <=, >=, ==, !=)"""
     flip = {ast.Lt: ast.Gt, ast.Gt: ast.Lt, ast.LtE: ast.GtE, ast.GtE: ast.LtE, ast.Eq: ast.Eq, ast.NotEq: ast.NotEq}
@@ -1997,19 +2431,20 @@ def rw_drop_default_arg(func, k):
 
 
 def rw_unpack_first(func, k):
-    """a, _b, _c = f(x)   ->   a = f(x)[0]      (the other targets are never read)"""
+    """_a, b, _c = f(x)   ->   b = f(x)[1]      (the other targets are never read)"""
     sites = []
     for owner, fld, blk in blocks_of(func):
         for st in blk:
             if isinstance(st, ast.Assign) and len(st.targets) == 1 and isinstance(st.targets[0], ast.Tuple) and len(st.targets[0].elts) >= 2 and isinstance(st.value, ast.Call) \
                     and all(isinstance(t, ast.Name) for t in st.targets[0].elts):
-                rest = [t.id for t in st.targets[0].elts[1:]]
-                if not any(isinstance(n, ast.Name) and n.id in rest and isinstance(n.ctx, ast.Load) for n in ast.walk(func)):
-                    sites.append((blk, st))
+                for j, t in enumerate(st.targets[0].elts):
+                    rest = [u.id for u in st.targets[0].elts if u is not t]
+                    if t.id not in rest and not any(isinstance(n, ast.Name) and n.id in rest and isinstance(n.ctx, ast.Load) for n in ast.walk(func)):
+                        sites.append((blk, st, j))
     if k >= len(sites):
         return False
-    blk, st = sites[k]
-    new = ast.Assign(targets=[ast.Name(id=st.targets[0].elts[0].id, ctx=ast.Store())], value=ast.Subscript(value=st.value, slice=ast.Constant(value=0), ctx=ast.Load()))
+    blk, st, j = sites[k]
+    new = ast.Assign(targets=[ast.Name(id=st.targets[0].elts[j].id, ctx=ast.Store())], value=ast.Subscript(value=st.value, slice=ast.Constant(value=j), ctx=ast.Load()))
     blk[blk.index(st)] = fix(new, st)
     return True
 
@@ -2113,7 +2548,7 @@ def rw_inline_helper(func, k):
     return True
 
 
-GUIDED = [rw_inline_helper, rw_extract_temp, rw_flatten_comp_filter, rw_first_of_concat, rw_split_tuple_assign, rw_augcomp_to_loop, rw_len_zero, rw_bool_ifexp, rw_singleton_comp, rw_ndenumerate_value, rw_flat_to_ndenumerate, rw_slice_zero, rw_flip_compare, rw_keyword_to_positional, rw_fstring_to_percent, rw_np_all_any, rw_range_min_guard, rw_membership_container, rw_drop_default_arg, rw_unpack_first, rw_use_alias, rw_ravel_flatten, rw_last_appended, rw_pass_branch, rw_dictcomp_to_loop, rw_none_flag, rw_argcomp_to_loop, rw_hoist_return, rw_get_none, rw_else_after_exit_wrap, rw_else_after_exit_unwrap, rw_comp_to_loop, rw_loop_to_comp, rw_not_compare, rw_demorgan, rw_swap_branches, rw_merge_nested_if, rw_split_and_if, rw_guard_to_swapped_else, rw_swapped_else_to_guard, rw_drop_tail_return, rw_add_tail_return, rw_element_to_index_loop, rw_fuse_loops, rw_late_publication, rw_drop_tail_continue, rw_items_loop, rw_filter_loop, rw_loop_to_update, rw_is_false, rw_hoist_common_tail, rw_sink_common_tail, rw_ifexp_to_if, rw_if_to_ifexp, rw_bool_to_if, rw_kwargs_default, rw_trailing_return, rw_enumerate, rw_return_temp]
+GUIDED = [rw_inline_helper, rw_extract_temp, rw_flatten_comp_filter, rw_first_of_concat, rw_split_tuple_assign, rw_augcomp_to_loop, rw_len_zero, rw_bool_ifexp, rw_singleton_comp, rw_ndenumerate_value, rw_flat_to_ndenumerate, rw_slice_zero, rw_flip_compare, rw_keyword_to_positional, rw_fstring_to_percent, rw_np_all_any, rw_range_min_guard, rw_membership_container, rw_drop_default_arg, rw_unpack_first, rw_use_alias, rw_ravel_flatten, rw_last_appended, rw_pass_branch, rw_dictcomp_to_loop, rw_none_flag, rw_argcomp_to_loop, rw_hoist_return, rw_get_none, rw_else_after_exit_wrap, rw_else_after_exit_unwrap, rw_comp_to_loop, rw_loop_to_comp, rw_not_compare, rw_demorgan, rw_swap_branches, rw_merge_nested_if, rw_split_and_if, rw_guard_to_swapped_else, rw_swapped_else_to_guard, rw_drop_tail_return, rw_add_tail_return, rw_element_to_index_loop, rw_fuse_loops, rw_late_publication, rw_drop_tail_continue, rw_items_loop, rw_filter_loop, rw_loop_to_update, rw_is_false, rw_hoist_common_tail, rw_sink_common_tail, rw_try_tail_out, rw_try_tail_in, rw_genexp_loop, rw_guarded_subscript_get, rw_update_to_loop, rw_extend_to_loop, rw_comp_over_collected, rw_tail_pass_to_continue, rw_split_or_exit, rw_merge_exit_ifs, rw_unroll_const_loop, rw_drop_noop_pass, rw_ifexp_to_if, rw_if_to_ifexp, rw_bool_to_if, rw_kwargs_default, rw_trailing_return, rw_enumerate, rw_return_temp]
 
 
 def _clone(node):
@@ -2122,6 +2557,9 @@ def _clone(node):
         return pickle.loads(pickle.dumps(node, protocol=pickle.HIGHEST_PROTOCOL))
     except Exception:
         return copy.deepcopy(node)
+
+
+REMOVALS = (rw_drop_tail_return, rw_drop_tail_continue, rw_drop_noop_pass)
 
 
 def _search(func, score, max_rounds, budget):
@@ -2148,7 +2586,7 @@ def _search(func, score, max_rounds, budget):
                 except Exception:
                     k += 1
                     continue
-                if s > base and (best is None or s > best[0]):
+                if s.better_than(base, removal=rw in REMOVALS) and (best is None or s.better_than(best[0], removal=rw in REMOVALS)):
                     best = (s, c)
                 k += 1
             if best is not None:
@@ -2372,15 +2810,27 @@ def coalesce_copies(func, ref_locals, local_names):
                     continue
                 t, x = st.value.id, st.targets[0].id
                 stores = [n for n in ast.walk(func) if isinstance(n, ast.Name) and n.id == t and isinstance(n.ctx, (ast.Store, ast.Del))]
-                if len(stores) != 1:
+                if not stores:
                     continue
                 d = None
-                for i in range(j - 1, -1, -1):
-                    if isinstance(blk[i], ast.Assign) and len(blk[i].targets) == 1 and blk[i].targets[0] is stores[0]:
+                for i in range(j):
+                    if isinstance(blk[i], ast.Assign) and len(blk[i].targets) == 1 and isinstance(blk[i].targets[0], ast.Name) and blk[i].targets[0].id == t:
                         d = i
                         break
                 if d is None:
                     continue
+                if len(stores) != 1:
+                    # several bindings (augmented updates, rebinding): every occurrence of t lies between its first binding and the copy,
+                    # so the whole life of t is inside this block and renaming it is alpha conversion
+                    inside = {id(n) for s2 in blk[d:j + 1] for n in ast.walk(s2)}
+                    if any(isinstance(n, ast.Name) and n.id == t and id(n) not in inside for n in ast.walk(func)):
+                        continue
+                    if any(isinstance(n, ast.Name) and n.id == t for s2 in blk[:d] for n in ast.walk(s2)):
+                        continue
+                    if any(isinstance(n, FuncDef + (ast.Lambda,)) for s2 in blk[d:j] for n in ast.walk(s2)):
+                        continue
+                    if any(isinstance(n, ast.Try) for n in ast.walk(func)) and any(isinstance(n, ast.Name) and n.id == x and getattr(n, 'lineno', 0) < blk[d].lineno for n in ast.walk(func)):
+                        continue
                 if any(isinstance(n, ast.Name) and n.id == x for s2 in blk[d:j] for n in ast.walk(s2)):
                     continue
                 if any(isinstance(n, ast.Name) and n.id == t for s2 in blk[j + 1:] for n in ast.walk(s2)):
